@@ -80,6 +80,14 @@ class Check(PropertyCheck):
                 lines.append(f"disp {j} {p} {m}")
                 if not (quiet and ep > 0 and rng.random() < 0.5):
                     lines += ["fsnap", "snap"]
+                if ep == 0 and rng.random() < 0.03:
+                    # an observer is unsubscribed in the first episode: the fresh world unsubscribes it at the same place
+                    # (a composite keeps reading its members: a member that is no longer reset would make the composite stale - the
+                    #  user's doing; with a composite present only observers outside it are unsubscribed)
+                    has_comp = any(l.startswith("fcomp") for l in lines)
+                    pool = ["history", "makespan_reward", "idle_reward"] + ([] if has_comp else
+                                                                            ["is_ready", "earliest_start_time", "duration", "is_scheduled", "position_in_job"])
+                    lines += ["funsubk " + rng.choice(pool), "fsnap"]
                 if ep == 0 and rng.random() < 0.12:
                     # an observer created in the middle of the first episode: after the reset it too is like new
                     late = rng.choice(["remaining_operations -", "is_completed -", "is_completed mj", "duration -",
@@ -119,7 +127,7 @@ class Check(PropertyCheck):
             if line == "mark setup-done":
                 ctx["setup_done"] = True
             return res
-        if line.startswith(("fobs", "fcomp", "fres")) and not out.startswith("raise"):
+        if line.startswith(("fobs", "fcomp", "fres", "funsubk")) and not out.startswith("raise"):
             ctx["setup"].append(line)        # created later: the fresh world creates it at the same place in the order
         if line == "reset":
             shadow = ImplFeat(scenario.meta.get("filter_style", "callable"))
@@ -131,6 +139,13 @@ class Check(PropertyCheck):
         if shadow is None:
             return res
         want = shadow.exec(line)
+        if line == "fsnap":
+            # observers the user unsubscribed are not reset by the dispatcher (nor notified): only the subscribed ones are compared
+            def subscribed_only(txt):
+                parts = txt.split(" || ")
+                subs = set(parts[0].split()[1:])
+                return " || ".join([parts[0]] + [p for p in parts[1:] if p.split(":", 1)[0] in subs])
+            out, want = subscribed_only(out), subscribed_only(want)
         if want != out:
             kind = "after-reset" if scenario.lines[index - 1] == "reset" or scenario.lines[index - 2] == "reset" else "later"
             a, b = out.split(" || "), want.split(" || ")
